@@ -1214,6 +1214,11 @@ class Client:
             if self.ignore_exc:
                 return {}
             raise
+        except BaseException:
+            # KeyboardInterrupt, SystemExit, gevent.Timeout, ...: the reply may
+            # be unread, so the connection must not be reused.
+            self.close()
+            raise
 
     def _store_cmd(
         self,
@@ -1297,7 +1302,7 @@ class Client:
                 else:
                     raise MemcacheUnknownError(line[:32])
             return results
-        except Exception:
+        except BaseException:
             self.close()
             raise
 
@@ -1341,7 +1346,7 @@ class Client:
                 results.append(line)
             return results
 
-        except Exception:
+        except BaseException:
             self.close()
             raise
 
